@@ -358,3 +358,37 @@ fn top_two_lives(src: usize, fake: usize) {
     kani::cover!(first_bool && !second_bool, "COVER:bool-then-fake");
     kani::cover!(true, "COVER:end");
 }
+
+/// C01.flavour.dispatch, AArch64 arm (T8 variant: the `target_arch = "aarch64"` arm of internal.rs selected):
+/// the dispatch hands the AArch64 installer exactly the function and the replacement / value it was given
+/// (the installer's callees are the contract recorders of `c02_a64_top`).
+#[cfg(verif_arch_aarch64)]
+#[kani::proof]
+#[kani::unwind(14)]
+#[kani::stub(crate::injector_core::common::read_bytes, top_read_bytes)]
+#[kani::stub(crate::injector_core::common::allocate_jit_memory, top_allocate)]
+#[kani::stub(crate::injector_core::patch_arm64::generate_will_execute_jit_code_abs, top_gen_abs)]
+#[kani::stub(crate::injector_core::patch_arm64::generate_will_return_boolean_jit_code, top_gen_bool)]
+#[kani::stub(crate::injector_core::patch_arm64::apply_branch_patch, top_apply)]
+fn c01_dispatch_a64() {
+    let src: usize = kani::any();
+    let fake: usize = kani::any();
+    kani::assume(src != 0 && fake != 0);
+    top_world(src);
+    let is_bool: bool = kani::any();
+    let v: bool = kani::any();
+    let w = crate::injector_core::internal::WhenCalled::new(fp_int(src));
+    let g = if is_bool { w.will_return_boolean_guard(v) } else { w.will_execute_guard(fp_int(fake)) };
+    unsafe {
+        crate::obligations! {
+            (T_AP_SRC == src && g_func(&g) == src) => "OBL:C01.flavour.dispatch.a64.src: the AArch64 installer patches exactly the function handed to the builder",
+            (T_GEN_KIND == if is_bool { 2 } else { 1 }) => "OBL:C01.flavour.dispatch.a64.kind: the installer of the requested kind is the one that runs",
+            (is_bool || T_GEN_TARGET == fake) => "OBL:C01.flavour.dispatch.a64.target: the trampoline is generated for exactly the replacement handed in",
+            (!is_bool || T_GEN_VALUE == v) => "OBL:C10.dispatch.a64.value: the boolean stub is generated for exactly the value handed in",
+        }
+    }
+    std::mem::forget(g);
+    kani::cover!(is_bool, "COVER:bool");
+    kani::cover!(!is_bool, "COVER:raw");
+    kani::cover!(true, "COVER:end");
+}
